@@ -18,6 +18,9 @@ grid position <-> index (div/mod), the periodic wrap of one axis, the neighbour 
 table writes, the prefix-sum structure of `_copies` / `_originals`, the arithmetic of the copy wiring,
 and the fold walk.
 -/
+set_option linter.unnecessarySeqFocus false
+set_option linter.unusedTactic false
+set_option linter.unreachableTactic false
 open CMacVerif.SubgridLayout CMacVerif.Handover CMacVerif.Gen.TravelDirections
 namespace CMacVerif.SubgridLayout
 
@@ -356,7 +359,7 @@ theorem buildBlocks_getElem? {β : Type} (g : Nat → Nat → β) (i : Nat) (ls 
       simp only [List.getD_cons_zero] at hc
       simp only [buildBlocks, pre_zero, Nat.zero_add, Nat.add_zero]
       rw [List.getElem?_append_left (by simpa using hc)]
-      simp [List.getElem?_range', hc]
+      simp [hc]
     | succ t =>
       simp only [List.getD_cons_succ] at hc
       simp only [buildBlocks, pre_cons_succ]
@@ -512,13 +515,13 @@ theorem takeWhile_none (l : List Nat) (i : Nat) (h : ∀ x ∈ l, x ≠ i) : l.t
   | nil => rfl
   | cons b bs =>
     have : b ≠ i := h b (List.mem_cons_self ..)
-    simp [List.takeWhile_cons, this]
+    simp [this]
 
 theorem takeWhile_replicate_append (n i : Nat) (B : List Nat) (h : ∀ x ∈ B, x ≠ i) :
     (List.replicate n i ++ B).takeWhile (· == i) = List.replicate n i := by
   induction n with
   | zero => simpa using takeWhile_none B i h
-  | succ n ih => simp [List.replicate_succ, List.takeWhile_cons, ih]
+  | succ n ih => simp [List.replicate_succ, ih]
 
 theorem walk_none (O : List Nat) (i start : Nat) (h : ∀ x ∈ O, x ≠ i) : walk O i start = [] := by
   unfold walk
@@ -1060,5 +1063,92 @@ theorem compK_updatePosition {K : Type} [Mul K] [OfScientific K] (d : Nat) (nF h
     compK (updatePosition d nF h pos) ax = updatePosAxis (pinAt d ax) (compK nF ax) (compK h ax) (compK pos ax) := by
   rcases (by omega : ax = 0 ∨ ax = 1 ∨ ax = 2) with rfl | rfl | rfl <;> rfl
 
+
+
+/-! ## `get_neighbours` -/
+
+theorem axisStep_zero (p : Bool) (n i : Nat) (hi : i < n) : axisStep p n i 0 = some i := by
+  rcases p with _ | _
+  · rw [axisStep_false, if_pos (by omega)]; simp
+  · rw [axisStep_true, if_neg (by omega), if_neg (by omega)]; simp
+
+theorem axisStep_neg (p : Bool) (n i : Nat) (hi : i < n) :
+    axisStep p n i (-1) = if i > 0 then some (i - 1) else if p then some (n - 1) else none := by
+  rcases p with _ | _
+  · rw [axisStep_false]; split_ifs <;> first | rfl | omega | (congr 1; omega)
+  · rw [axisStep_true]
+    by_cases h0 : i = 0
+    · subst h0; simp; omega
+    · rw [if_neg (by omega), if_neg (by omega), if_pos (by omega)]; congr 1; omega
+
+theorem axisStep_pos (p : Bool) (n i : Nat) (hi : i < n) :
+    axisStep p n i 1 = if i + 1 < n then some (i + 1) else if p then some 0 else none := by
+  rcases p with _ | _
+  · rw [axisStep_false]; split_ifs <;> first | rfl | omega | (congr 1; omega)
+  · rw [axisStep_true]
+    by_cases h0 : i + 1 < n
+    · rw [if_neg (by omega), if_neg (by omega), if_pos h0]; congr 1
+    · rw [if_neg (by omega), if_pos (by omega), if_pos (by omega), if_neg h0]; rfl
+
+theorem filterMap_eq_flatMap {α β : Type} (g : α → Option β) (l : List α) :
+    l.filterMap g = l.flatMap fun x => (g x).toList := by
+  induction l with
+  | nil => rfl
+  | cons a l ih => cases h : g a <;> simp [h, ih]
+
+theorem ite_append (l : List Nat) (c : Prop) [Decidable c] (p : Bool) (v w : Nat) :
+    (if c then l ++ [v] else if p = true then l ++ [w] else l)
+      = l ++ (if c then some v else if p = true then some w else none).toList := by
+  split_ifs <;> simp
+
+/-- `get_neighbours` lists the face neighbours of the neighbour table, in the order
+x-, x+, y-, y+, z-, z+ (`FACE_X_N, FACE_X_P, FACE_Y_N, FACE_Y_P, FACE_Z_N, FACE_Z_P`) -/
+theorem getNeighbours_faces_aux (L : Layout) (hx : 0 < L.mx) (hy : 0 < L.my) (hz : 0 < L.mz) (s : Nat) (hs : s < L.size) :
+    getNeighbours L s = [22, 21, 24, 23, 26, 25].filterMap (ngb L s) := by
+  obtain ⟨h1, h2, h3⟩ := gridPosition_lt L s hs
+  have o22 : offsetOf 22 = (-1, 0, 0) := by decide
+  have o21 : offsetOf 21 = (1, 0, 0) := by decide
+  have o24 : offsetOf 24 = (0, -1, 0) := by decide
+  have o23 : offsetOf 23 = (0, 1, 0) := by decide
+  have o26 : offsetOf 26 = (0, 0, -1) := by decide
+  have o25 : offsetOf 25 = (0, 0, 1) := by decide
+  rw [filterMap_eq_flatMap]
+  simp only [List.flatMap_cons, List.flatMap_nil, List.append_nil]
+  rw [ngb_eq_ngbAt L hx hy hz s 22 (by decide), ngb_eq_ngbAt L hx hy hz s 21 (by decide),
+    ngb_eq_ngbAt L hx hy hz s 24 (by decide), ngb_eq_ngbAt L hx hy hz s 23 (by decide),
+    ngb_eq_ngbAt L hx hy hz s 26 (by decide), ngb_eq_ngbAt L hx hy hz s 25 (by decide), o22, o21, o24, o23, o26, o25]
+  unfold ngbAt getNeighbours
+  simp only [axisStep_zero _ _ _ h1, axisStep_zero _ _ _ h2, axisStep_zero _ _ _ h3,
+    axisStep_neg _ _ _ h1, axisStep_neg _ _ _ h2, axisStep_neg _ _ _ h3,
+    axisStep_pos _ _ _ h1, axisStep_pos _ _ _ h2, axisStep_pos _ _ _ h3, ite_append, List.nil_append]
+  generalize (gridPosition L s).1 = x at *
+  generalize (gridPosition L s).2.1 = y at *
+  generalize (gridPosition L s).2.2 = z at *
+  have e1 : (if x > 0 then [(x - 1) * L.ny * L.nz + y * L.nz + z]
+        else if L.px = true then [(L.nx - 1) * L.ny * L.nz + y * L.nz + z] else [])
+      = (combine L (if x > 0 then some (x - 1) else if L.px = true then some (L.nx - 1) else none) (some y) (some z)).toList := by
+    split_ifs <;> simp [combine, indexOf]
+  have e2 : (if x + 1 < L.nx then some ((x + 1) * L.ny * L.nz + y * L.nz + z)
+        else if L.px = true then some (y * L.nz + z) else none)
+      = combine L (if x + 1 < L.nx then some (x + 1) else if L.px = true then some 0 else none) (some y) (some z) := by
+    split_ifs <;> simp [combine, indexOf]
+  have e3 : (if y > 0 then some (x * L.ny * L.nz + (y - 1) * L.nz + z)
+        else if L.py = true then some (x * L.ny * L.nz + (L.ny - 1) * L.nz + z) else none)
+      = combine L (some x) (if y > 0 then some (y - 1) else if L.py = true then some (L.ny - 1) else none) (some z) := by
+    split_ifs <;> simp [combine, indexOf]
+  have e4 : (if y + 1 < L.ny then some (x * L.ny * L.nz + (y + 1) * L.nz + z)
+        else if L.py = true then some (x * L.ny * L.nz + z) else none)
+      = combine L (some x) (if y + 1 < L.ny then some (y + 1) else if L.py = true then some 0 else none) (some z) := by
+    split_ifs <;> simp [combine, indexOf]
+  have e5 : (if z > 0 then some (x * L.ny * L.nz + y * L.nz + z - 1)
+        else if L.pz = true then some (x * L.ny * L.nz + y * L.nz + L.nz - 1) else none)
+      = combine L (some x) (some y) (if z > 0 then some (z - 1) else if L.pz = true then some (L.nz - 1) else none) := by
+    split_ifs <;> simp [combine, indexOf] <;> omega
+  have e6 : (if z + 1 < L.nz then some (x * L.ny * L.nz + y * L.nz + z + 1)
+        else if L.pz = true then some (x * L.ny * L.nz + y * L.nz) else none)
+      = combine L (some x) (some y) (if z + 1 < L.nz then some (z + 1) else if L.pz = true then some 0 else none) := by
+    split_ifs <;> simp [combine, indexOf] <;> omega
+  rw [e1, e2, e3, e4, e5, e6]
+  simp only [List.append_assoc]
 
 end CMacVerif.SubgridLayout
